@@ -35,7 +35,7 @@ func init() {
 			}
 			// "never of earlier calls on the same or another client": an earlier call that failed to open its socket must not keep later
 			// calls from sending their request (port-queue phase of C09's workload)
-			return append(b, Batch{Mode: "port-queue", RunAs: "C09", Keys: []string{"hang", "failed-without-asking", "panic"}, Timeout: 20 * time.Minute, Procs: 8})
+			return append(b, Batch{Mode: "port-queue", RunAs: "C09", Keys: []string{"hang", "failed-without-asking", "not-served-in-turn", "panic"}, Timeout: 20 * time.Minute, Procs: 8})
 		}}
 }
 
@@ -50,6 +50,9 @@ func init() {
 			b = append(b, Batch{Mode: "hammer", RunAs: "C08", Keys: []string{"crossed-reply", "panic"}, Race: true, Timeout: 30 * time.Minute, Procs: 8}) // + the race detector on the receive path
 			// the one operation whose replies come from many controllers: GetDevices (the hooked layer of C11's workload)
 			b = append(b, Batch{Mode: "hook", RunAs: "C11", Keys: []string{"hook:", "noise-fails-call", "panic"}, Timeout: 20 * time.Minute})
+			// the decoded result over the real driver, which handles the received bytes before the decoder sees them (in debug mode it
+			// also dumps them): every result carries the marker of the accepted datagram (loopback layer of C03's workload)
+			b = append(b, Batch{Mode: "loopback", RunAs: "C03", Keys: []string{"foreign-content", "panic"}, Timeout: 20 * time.Minute, Procs: 8})
 			if tier == "thorough" {
 				return append(b, zoneBatches(0, "tz", 20*time.Minute)...)
 			}
@@ -187,11 +190,14 @@ func init() {
 	specs["C08"] = &Spec{ID: "C08", Level: "exploration", Parallel: 4,
 		Assumptions: []string{loopAssumption, "the race detector reports only accesses that executed (happens-before based): silence means no race on the calls and interleavings listed here", "a call is judged only when the farm measurably sent its reply within 0.85 T of receiving the request (planned delays <= 0.7 T)", "successful TCP calls from a fixed bind port are left out of the plans (a 4-tuple cannot be reused within TIME_WAIT - kernel behaviour, not the library's); a refused TCP controller is included", "schedules are perturbed (GOMAXPROCS 2/4/16, adversarial reply delays), not enumerated"},
 		Plan: func(tier string) []Batch {
+			// "with or without a fixed bind port ... even if the call first had to wait its turn": the fixed-port rounds of C09's
+			// workload (calls of several clients queued on one port, overlapping bind addresses, two TCP calls in a row from one port)
+			queue := Batch{Mode: "port-queue", RunAs: "C09", Keys: []string{"second-call-cannot-bind", "not-served-in-turn", "hang", "rejected-in-time-reply", "panic"}, Timeout: 20 * time.Minute, Procs: 8}
 			if tier == "thorough" {
 				return []Batch{{Mode: "race", Race: true, Procs: 2, Timeout: 40 * time.Minute}, {Mode: "race", Race: true, Procs: 4, Timeout: 40 * time.Minute}, {Mode: "race", Race: true, Procs: 16, Timeout: 40 * time.Minute},
-					{Mode: "race", Race: true, Procs: 8, Timeout: 40 * time.Minute}, {Mode: "plain", Procs: 2, Timeout: 40 * time.Minute}, {Mode: "plain", Procs: 16, Timeout: 40 * time.Minute}, {Mode: "plain", Procs: 4, Timeout: 40 * time.Minute}, {Mode: "plain", Procs: 8, Timeout: 40 * time.Minute}}
+					{Mode: "race", Race: true, Procs: 8, Timeout: 40 * time.Minute}, {Mode: "plain", Procs: 2, Timeout: 40 * time.Minute}, {Mode: "plain", Procs: 16, Timeout: 40 * time.Minute}, {Mode: "plain", Procs: 4, Timeout: 40 * time.Minute}, {Mode: "plain", Procs: 8, Timeout: 40 * time.Minute}, queue}
 			}
-			return []Batch{{Mode: "race", Race: true, Procs: 4, Timeout: 15 * time.Minute}, {Mode: "race", Race: true, Procs: 16, Timeout: 15 * time.Minute}, {Mode: "plain", Procs: 2, Timeout: 15 * time.Minute}, {Mode: "plain", Procs: 8, Timeout: 15 * time.Minute}}
+			return []Batch{{Mode: "race", Race: true, Procs: 4, Timeout: 15 * time.Minute}, {Mode: "race", Race: true, Procs: 16, Timeout: 15 * time.Minute}, {Mode: "plain", Procs: 2, Timeout: 15 * time.Minute}, {Mode: "plain", Procs: 8, Timeout: 15 * time.Minute}, queue}
 		}}
 }
 
